@@ -30,6 +30,10 @@ def models(tier, seed):
                timeout=3000),
           dict(name='MC_FsmTimed no cancel on exit (sharpness)', spec='MC_FsmTimed',
                cfg='MC_FsmTimed_nocancel.cfg', expect_violation='AtMostOnePending'),
+          dict(name='MC_FsmTimed starts from saved states, output events coming back', spec='MC_FsmTimed',
+               cfg='MC_FsmTimed_restore.cfg' if tier == 'quick' else 'MC_FsmTimed_restore_deep.cfg', timeout=3000),
+          dict(name='MC_FsmTimed restored timer started after the output events (sharpness)', spec='MC_FsmTimed',
+               cfg='MC_FsmTimed_restorelate.cfg', expect_violation='AtMostOnePending'),
           dict(name='MC_FsmTimed fired timer kept (sharpness)', spec='MC_FsmTimed',
                cfg='MC_FsmTimed_stale.cfg', expect_violation='ReportedIsPending'),
           dict(name='export', spec='MC_FsmTimed', cfg='MC_FsmTimed_export.cfg',
@@ -149,7 +153,11 @@ def stimuli(tier, seed, ctx):
             # the run starts from a saved state: a timed state whose timer has some ticks left
             timed = [x for x in range(1, cfg['n'] + 1) if cfg['tev'][x - 1]]
             rs = rnd.choice(timed) if timed and rnd.random() < 0.8 else rnd.randint(1, cfg['n'])
-            cfg['rest'] = {'on': True, 's': rs, 'due': rnd.randint(1, 6) if cfg['tev'][rs - 1] else -1}
+            cfg['rest'] = {'on': True, 's': rs, 'due': rnd.randint(1, 6) if cfg['tev'][rs - 1] else -1, 'fb': 0}
+            if rnd.random() < 0.6:
+                # the output events of the restored state come back to the FSM (through another
+                # block) as an event, while _restore_state() is still running
+                cfg['rest']['fb'] = rnd.choice(list(range(1, cfg['m'] + 1)) + [100 + rnd.randint(1, cfg['n'])])
         out.append({'cfg': cfg, 'args': {'reps': [_rep(rnd) for _ in range(8)]},
                     'script': _rand_script(rnd, cfg, 14), 'stop_at': rnd.randint(3, 18), 'tail': 8,
                     'stopfault': 6 if rnd.random() < 0.2 else 0})
@@ -341,6 +349,34 @@ def execute(stim):
                     kw[f'on_exit_s{s}'] = edzed.Event(sink, 'nosuchevent')
         if cfg.get('rest', {}).get('on'):
             kw['persistent'] = True
+            fb = cfg['rest'].get('fb', 0)
+            if fb:
+                class Feedback(edzed.SBlock):
+                    """sends ONE event back to the FSM: on the first output event it receives, i.e.
+                    while the FSM is assigning the output of the restored state"""
+                    used = False
+
+                    def init_regular(self):
+                        self.set_output(0)
+
+                    def _event(self, etype_, data):
+                        if etype_ != 'go':
+                            raise edzed.EdzedUnknownEvent(etype_)
+                        if not self.used:
+                            self.used = True
+                            try:
+                                st['fsm'].event(etype(fb))
+                            except (edzed.EdzedUnknownEvent, edzed.EdzedCircuitError):
+                                pass        # (a fatal error has stopped the simulation by itself)
+                Feedback('fbk')
+                first = []
+
+                def once(data):     # (only the very first output event is sent)
+                    if first:
+                        return False
+                    first.append(1)
+                    return True
+                kw['on_output'] = edzed.Event('fbk', 'go', efilter=once)
         return cls('blk', initdef=snames[cfg['init'] - 1], **kw)
 
     def factory(loop, clock):
@@ -458,7 +494,8 @@ def execute(stim):
     finally:
         edzed.SBlock.event = orig_event
     hdr = dict(cfg)
-    hdr.setdefault('rest', {'on': False, 's': 1, 'due': -1})
+    hdr.setdefault('rest', {'on': False, 's': 1, 'due': -1, 'fb': 0})
+    hdr['rest'].setdefault('fb', 0)
     return {'hdr': hdr, 'ev': lines}
 
 
